@@ -258,6 +258,32 @@ def concrete(repo, seed, tier):
                     and np.allclose(sc.peakamp.values, c * base.peakamp.values, rtol=1e-9)):
                 out["failure"] = dict(what="outputs do not scale with the square of the input amplitude", resp=resp, factor="2**%d" % p2,
                                       count_diff=float(abs(sc.count.values - base.count.values).max())); return ev, out
+    # the frequency vector given as integers (ndarray / list) gives what the same numbers as floats give (serial path)
+    sig_s = 0.4 * sig                         # responses below one unit, so that a truncation to integers would show
+    ff = np.array([20.0, 35.0, 60.0])
+    for resp in ("absacce", "pvelo"):
+        base = fdepsd.fdepsd(sig_s, sr, ff, 25, resp=resp, nbins=30, parallel="no")
+        for what_, fq_ in (("an integer ndarray", ff.astype(np.int64)), ("a list of ints", [20, 35, 60]), ("an int32 ndarray", ff.astype(np.int32))):
+            got = fdepsd.fdepsd(sig_s, sr, fq_, 25, resp=resp, nbins=30, parallel="no")
+            ev += 1
+            for nm in ("psd", "peakamp", "binamps", "count", "bincount", "var", "srs", "di_sig"):
+                a_, b_ = np.asarray(getattr(base, nm), float), np.asarray(getattr(got, nm), float)
+                if a_.shape != b_.shape or not np.allclose(a_, b_, rtol=1e-12, atol=0, equal_nan=True):
+                    out["failure"] = dict(what="fdepsd with the frequencies given as %s: output '%s' differs from the result for the same frequencies given as floats" % (what_, nm), resp=resp)
+                    return ev, out
+    # findap on integer-typed samples (ADC counts in int8 / int16 / int32) selects what it selects on the float copy of the same samples
+    for it in range(30 if tier == "quick" else 300):
+        nlen = rng.randint(2, 120)
+        for dt_, amp_ in ((np.int8, 120), (np.int16, 30000), (np.int32, 2 ** 30)):
+            yi = (rng.randint(-amp_, amp_ + 1, size=nlen)).astype(dt_)
+            if it % 3 == 0:
+                yi = np.repeat(yi, rng.randint(1, 3, size=nlen))[:nlen]        # plateaus
+            ev += 1
+            pi_, pf_ = cyclecount.findap(yi), cyclecount.findap(yi.astype(float))
+            if not np.array_equal(pi_, pf_):
+                out["failure"] = dict(what="findap on %s samples differs from findap on the float64 copy of the same samples" % np.dtype(dt_).name, y=yi.tolist()[:60],
+                                      selected_int=np.nonzero(pi_)[0].tolist()[:30], selected_float=np.nonzero(pf_)[0].tolist()[:30])
+                return ev, out
     # sigcount / binify conservation on the real pipeline
     for it in range(20 if tier == "quick" else 300):
         y = np.cumsum(rng.randn(rng.randint(5, 60))).round(1)
